@@ -339,6 +339,7 @@ func matchKey(pattern, key string) bool {
 type ifInfo struct {
 	in   *ssa.If
 	atom Atom
+	site *spliceSite // non-nil: a branch of a spliced helper, atom in the caller's frame
 }
 
 func (p *Prog) ifs(fn *ssa.Function) []ifInfo {
@@ -349,8 +350,11 @@ func (p *Prog) ifs(fn *ssa.Function) []ifInfo {
 			continue
 		}
 		if iff, ok := b.Instrs[len(b.Instrs)-1].(*ssa.If); ok {
-			out = append(out, ifInfo{iff, condAtom(x, iff.Cond, iff)})
+			out = append(out, ifInfo{in: iff, atom: condAtom(x, iff.Cond, iff)})
 		}
+	}
+	for _, sp := range p.splices(fn) {
+		out = append(out, p.spliceIfs(x, sp)...)
 	}
 	return out
 }
@@ -369,7 +373,7 @@ func passEdges(ifs []ifInfo, guard []Atom) (map[Edge]bool, []ifInfo) {
 			if ii.atom.Pol != g.Pol {
 				slot = 1
 			}
-			cut[Edge{ii.in.Block(), slot}] = true
+			cut[Edge{ii.in.Block(), slot, ii.site}] = true
 			matched = append(matched, ii)
 		}
 	}
@@ -440,17 +444,20 @@ func (p *Prog) failArms(fn *ssa.Function, ifs []ifInfo, guard []Atom, effectSite
 	x := p.tx(fn)
 	for _, ii := range matched {
 		b := ii.in.Block()
-		var starts []*ssa.BasicBlock
-		for slot, s := range b.Succs {
-			if !edges[Edge{b, slot}] {
-				starts = append(starts, s)
+		var starts []Node
+		for slot := range b.Succs {
+			if !edges[Edge{b, slot, ii.site}] {
+				starts = append(starts, enter(b, slot, ii.site, edges)...)
 			}
 		}
-		reach := reachFrom(starts, edges)
+		reach := reachFromNodes(starts, edges)
 		for rb := range reach {
 			for _, in := range rb.Instrs {
 				switch in := in.(type) {
 				case *ssa.Return:
+					if rb.Parent() != fn {
+						continue // a spliced helper's return continues in fn
+					}
 					if k := p.exitKind(x, in); k != "error" {
 						return false, fmt.Sprintf("fail arm of %q at %s reaches a non-error return at %s (kind %s)", ii.atom.Key, p.instrPos(ii.in), p.instrPos(in), k)
 					}
@@ -514,8 +521,8 @@ func (p *Prog) rejectEdges(fn *ssa.Function, ifs []ifInfo) []struct {
 	for _, s := range succ {
 		succBlocks[s.Block()] = true
 	}
-	canSucceed := func(b *ssa.BasicBlock) bool {
-		reach := reachFrom([]*ssa.BasicBlock{b}, nil)
+	canSucceed := func(ns []Node) bool {
+		reach := reachFromNodes(ns, nil)
 		for rb := range reach {
 			if succBlocks[rb] {
 				return true
@@ -530,7 +537,10 @@ func (p *Prog) rejectEdges(fn *ssa.Function, ifs []ifInfo) []struct {
 	}
 	for _, ii := range ifs {
 		b := ii.in.Block()
-		c0, c1 := canSucceed(b.Succs[0]), canSucceed(b.Succs[1])
+		if ii.site == nil && spliceAt[b] != nil {
+			continue // decided by the helper's own branches, which are in ifs
+		}
+		c0, c1 := canSucceed(enter(b, 0, ii.site, nil)), canSucceed(enter(b, 1, ii.site, nil))
 		if c0 == c1 {
 			continue
 		}
